@@ -201,22 +201,33 @@ def race_phase(rep, binary, mode, jobs, p, label):
         rep.infra_error("%s: %d job(s) did not finish after their contexts were cancelled, e.g. %s" % (
             label, len(stuck), {k: stuck[0][k] for k in stuck[0] if k not in ("blocking", "methods")}))
     confirmed = {}
+    lock = threading.Lock()
 
     def work(item):
+        # every isolated re-run counts for every key it shows (a report that comes back in the isolated run
+        # of another job of the same component is reproduced just as well)
         key, js = item
-        for j in js[:2]:
-            ok, raw, seen = confirm(binary, mode, j, key, p)
-            if ok:
-                return key, j, raw
-        return key, None, ""
+        for j in js[:4]:
+            with lock:
+                if key in confirmed:
+                    return
+            for a in range(3):
+                jj = dict(j, n=0, rounds=j["rounds"] * (3 + 2 * a))
+                res = L.run_jobs(binary, mode, [jj], timeout=600, gomaxprocs=p["gomaxprocs"])
+                keys, raw, inc, crash = findings_of(res[0], j["comp"])
+                with lock:
+                    for k in keys:
+                        confirmed.setdefault(k, dict(job=j, report=raw.get(k, "")))
+                    if key in confirmed:
+                        return
 
     with cf.ThreadPoolExecutor(max_workers=6) as ex:
-        for key, j, raw in ex.map(work, sorted(by_key.items())):
-            if j is None:
-                rep.infra_error("%s: race report %s was not reproduced when its job was re-run alone (job %s)" % (
-                    label, key, {k: by_key[key][0][k] for k in by_key[key][0] if k not in ("blocking", "methods")}))
-            else:
-                confirmed[key] = dict(job=j, report=raw)
+        list(ex.map(work, sorted(by_key.items(), key=lambda kv: (-len(kv[1]), kv[0]))))
+    for key in sorted(by_key):
+        if key not in confirmed:
+            rep.infra_error("%s: race report %s was not reproduced when its job was re-run alone (job %s)" % (
+                label, key, {k: by_key[key][0][k] for k in by_key[key][0] if k not in ("blocking", "methods")}))
+    confirmed = {k: v for k, v in confirmed.items() if k in by_key}
     inc_only = [n for n, x in per_job.items() if x["incomplete"] and not x["keys"]]
     if inc_only:
         rep.cov.setdefault("reports_with_unrestored_stack", 0)
@@ -374,8 +385,9 @@ def body(rep, tier, seed, p, late, lap):
     lap("probes")
     events.append(ev(ev="end", ok=probes_ok))
     origin.append(dict(kind="end"))
-    if rep.infra:
-        return
+    # (infrastructure trouble so far - an unreproduced report, a harness process that died for another reason than a
+    # detected race - does not stop the judgement: reproduced violations are still reported; report.finish gives
+    # violations precedence and otherwise exits 2)
 
     # ---- TLC judges the events; in parallel: a corrupted copy must be rejected at the corrupted events
     bad_copy = copy.deepcopy(events)
@@ -403,6 +415,14 @@ def body(rep, tier, seed, p, late, lap):
         rep.infra_error("trace validation did not complete: " + str(info)[:800])
         return
     flagged = info["bad"] if acc is False else []
+    # report.finish prints / saves the first ten violations: interleave the components so that each one shows up
+    rank, by_comp = {}, {}
+    for b in sorted(flagged, key=lambda b: b["i"]):
+        o = origin[b["i"] - 1] if 0 < b["i"] <= len(origin) else None
+        c = o["job"]["comp"] if o and "job" in o else "-"
+        rank[b["i"], b["why"], b["what"]] = (by_comp.setdefault(c, 0), c)
+        by_comp[c] += 1
+    flagged = sorted(flagged, key=lambda b: rank[b["i"], b["why"], b["what"]])
     reported = set()
     for b in flagged:
         o = origin[b["i"] - 1] if 0 < b["i"] <= len(origin) else None
